@@ -35,7 +35,7 @@ META = dict(
               "several cache/flush settings with complete read-back after every step + trace validation of recorded runs",
 )
 
-CFG = """SPECIFICATION Spec
+CFG = """SPECIFICATION %(spec)s
 CONSTANTS
   NK = %(nk)d
   Vals = {%(vals)s}
@@ -56,8 +56,8 @@ CHECK_DEADLOCK FALSE
 ALLTX = '"w", "r1", "r2"'
 
 
-def cfg(nk=2, vals="0, 1", nb=1, depth=2, ops=3, upd=True, tx=ALLTX, seeds="0", emit="Emit", props=True):
-    return CFG % dict(nk=nk, vals=vals, nb=nb, depth=depth, ops=ops, upd="TRUE" if upd else "FALSE", tx=tx, seeds=seeds,
+def cfg(nk=2, vals="0, 1", nb=1, depth=2, ops=3, upd=True, tx=ALLTX, seeds="0", emit="Emit", props=True, spec="Spec"):
+    return CFG % dict(spec=spec, nk=nk, vals=vals, nb=nb, depth=depth, ops=ops, upd="TRUE" if upd else "FALSE", tx=tx, seeds=seeds,
                       emit=("ACTION_CONSTRAINT " + emit) if emit else "",
                       props="PROPERTIES SnapshotStable NoTrace OwnWritesOnly" if props else "")
 
@@ -128,23 +128,29 @@ def run(chk):
 
 
 def _run(chk, thorough, rng, pool, fbin, work):
-    variants = "always,never,size" + (",size+reopen" if thorough else "")
+    variants = "always,never,size,odd,even" + (",size+reopen,odd+reopen" if thorough else "")
     jobs = []
     for n, (label, nk, nb, kw, size) in enumerate(EXTRACT_THOROUGH if thorough else EXTRACT_QUICK):
         f = pool.submit(vf.tlc, "Store", "KV", "x%d.cfg" % n, cfg_text=cfg(**kw), workers=2 if thorough else 1, timeout=3000)
         jobs.append((label + " (<= %d steps)" % kw["ops"], nk, nb, size, f, False))
     # simulation: long random behaviours over the full action set
-    sims = [("simulation, explicit transactions", dict(upd=False), 12, 100, 100, 200)]
+    sims = [("simulation, explicit transactions", dict(upd=False), 12, 100, 100, 200),
+            # the model's state after "put, delete" is the empty store again, so exhaustive exploration never
+            # continues such a history; what the implementation keeps from it (tombstones in the write cache)
+            # is reached by random walks: one writer over one key, many commits
+            ("simulation, committed writer transactions over one key (flush schedules)",
+             dict(upd=False, nk=1, vals="1", nb=0, depth=1, tx='"w"', seeds="0", spec="WriterSpec"), 120, 1500, 60, 80)]
     if thorough:
         sims.append(("simulation, with managed Update", dict(upd=True), 8, 60, 100, 200))
     for n, (label, kw, nq, nt, dq, dt) in enumerate(sims):
         depth = dt if thorough else dq
+        ckw = dict(nk=SIM_NK, vals="0, 1, 2", nb=SIM_NB, depth=2, seeds="0, 1, 2, 3")
+        ckw.update(kw)
         f = pool.submit(vf.tlc, "Store", "KV", "s%d.cfg" % n,
-                        cfg_text=cfg(nk=SIM_NK, vals="0, 1, 2", nb=SIM_NB, depth=2, ops=depth, seeds="0, 1, 2, 3",
-                                     emit="EmitLast", props=False, **kw),
+                        cfg_text=cfg(ops=depth, emit="EmitLast", props=False, **ckw),
                         workers=1, timeout=3000, simulate="num=%d" % (nt if thorough else nq), depth=depth + 1,
                         seed_arg=vf.seed() + n)
-        jobs.append(("%s (%d steps)" % (label, depth), SIM_NK, SIM_NB, None, f, True))
+        jobs.append(("%s (%d steps)" % (label, depth), ckw["nk"], ckw["nb"], None, f, True))
     binary = fbin.result()
 
     sample_behs = None
@@ -189,7 +195,7 @@ def _run(chk, thorough, rng, pool, fbin, work):
                     fbad = (label, pool.submit(vf.tlc, "Store", "TraceKV", "tb.cfg", cfg_text=TRACE_CFG % (nk, nb, tr2),
                                                workers=1, timeout=1500))
             chk.absorb(recs, "replay+record: " + label)
-            recs, _ = vf.run_driver(binary, args + ["always,size+reopen" if idx % 2 else "always,never+reopen"])
+            recs, _ = vf.run_driver(binary, args + ["always,size+reopen,odd,even" if idx % 2 else "always,never+reopen,odd,even"])
             chk.absorb(recs, "replay: " + label)
         else:
             recs, _ = vf.run_driver(binary, args + [variants])
@@ -252,7 +258,8 @@ def _run(chk, thorough, rng, pool, fbin, work):
         "read-only transaction Cursor.Delete is generated only on a key (ErrTxNotWritable)",
         "bucket handles are resolved from Metadata() for every call (no use of a handle across its bucket's deletion)",
         "one goroutine: Close is only generated with no open transaction and a second read-write Begin never (both block)",
-        "cache variants: flushInterval < 0 (flush every commit), interval/size huge (never), maxSize = 400 bytes (by size); "
+        "cache variants: flushInterval < 0 (flush every commit), interval/size huge (never), maxSize = 400 bytes (by size), "
+        "every second commit flushing (odd / even: the flushing commit writes past the cache); "
         "the flush timer itself (wall clock) is not exercised",
     ]
     return chk.finish(exhaustive=False)
